@@ -315,7 +315,10 @@ def oracleC07 (hBefore : List Op) (op : Option Op) (expectRet : Option String) (
       else if (h.drop base).isEmpty && dirty != "0" then "FAIL dirty flag set on a new or parsed archive"
       else if unchanged && entries != prev then "FAIL storing a looked-up message back changed the entries"
       else match expectRet with
-        | some x => if r == x then "ok" else "FAIL return value of has_message / get_message"
+        | some x =>
+          if r == x then "ok"
+          else if r.startsWith "clean:" then "FAIL is_dirty() was false right after a set_message (call indices " ++ (r.drop 6).toString ++ ")"
+          else "FAIL return value of has_message / get_message"
         | none => "ok"
     (verdict, entries)
   | _, _, _, _ => ("FAIL unreadable implementation line", prev)
@@ -388,6 +391,25 @@ def stepC07 (st : St) (cf impl : List String) : St × String × String :=
         | some m => [.get k, .set k m]
         | none => [.get k]
       go t' (retOpt got) ops (some (retOpt (Spec.TextMap.lookupOf st.hist k))) true
+    | [_, "sets", count, nkeys, delevery] =>
+      -- a long run of set_message calls (see the harness); the model's flag is set by the first call
+      -- and nothing clears it, so no call index is reported
+      match count.toNat?, nkeys.toNat?, delevery.toNat? with
+      | some count, some nkeys, some delevery =>
+        if nkeys == 0 || count == 0 then bad else
+        let asc (x : String) : Bytes := x.toList.map (fun ch => UInt8.ofNat ch.toNat)
+        let calls : List Spec.TextMap.Op := (List.range count).flatMap (fun i =>
+          let st1 : List Spec.TextMap.Op := [.set (asc ("k" ++ toString (i % nkeys))) (asc ("m" ++ toString (i % 7)))]
+          if delevery > 0 && i % delevery == delevery - 1 then
+            st1 ++ [.del (asc ("k" ++ toString ((i + 1) % nkeys)))] else st1)
+        let (t', clean) := calls.foldl (fun (acc : TextArchive × Bool) o =>
+          let t2 := match o with
+            | .set k m => acc.1.setMessage k m
+            | .del k => acc.1.deleteMessage k
+            | _ => acc.1
+          (t2, acc.2 && t2.isDirty)) (st.model, true)
+        go t' (if clean then "clean:-" else "clean:model") calls (some "clean:-") false
+      | _, _, _ => bad
     | _ => bad
 
 /-! ### family -/
